@@ -14,6 +14,10 @@ use serde::{Deserialize, Serialize};
 
 #[derive(Debug, Clone, Serialize, Deserialize)]
 pub struct Case {
+    /// between steps the caller reassigns public fields: bit 0 `step_size`, bit 1 `positions`,
+    /// bit 2 `n_leapfrog`
+    #[serde(default)]
+    pub reassign: u8,
     pub spec: Spec,
     /// 0: T=f32/B=f32, 1: T=f64/B=f64, 2: T=f64/B=f32
     pub combo: u8,
@@ -44,9 +48,10 @@ fn strategy() -> BoxedStrategy<Case> {
         prop_oneof![3 => Just(0u8), 1 => Just(1u8), 1 => Just(2u8)],
         prop_oneof![3 => Just(1.0f64), 1 => 1.0f64..4.0],
         any::<u64>(),
-        any::<u64>(),
+        (any::<u64>(), prop_oneof![3 => Just(0u8), 2 => 1u8..8]),
     )
-        .prop_map(|(spec, combo, chains, n_leapfrog, eps_rel, steps, inject, umode, pscale, seed, data_seed)| Case {
+        .prop_map(|(spec, combo, chains, n_leapfrog, eps_rel, steps, inject, umode, pscale, seed, (data_seed, reassign))| Case {
+            reassign,
             spec,
             combo,
             chains,
@@ -342,7 +347,30 @@ where
     let mut n_rej = 0;
     let mut nontrivial = false;
     verif::hmc_clear_overrides();
+    let mut eps_used = eps_used;
+    let mut n_leap = c.n_leapfrog;
     for s in 0..c.steps {
+        if s >= 1 && c.reassign != 0 {
+            // `step_size`, `positions` and `n_leapfrog` are public fields: a caller may retune or
+            // reposition the sampler between updates, and the next update must use the new values
+            if c.reassign & 1 != 0 {
+                let f = [0.5, 2.0, 0.8, 1.25][s % 4];
+                let new_eps = T::from_f64(eps_used * f).unwrap();
+                sampler.step_size = new_eps;
+                eps_used = num_traits::ToPrimitive::to_f64(&new_eps).unwrap();
+                cov.class("step_size-reassigned-between-steps");
+            }
+            if c.reassign & 2 != 0 {
+                let flat: Vec<f64> = (0..n).flat_map(|_| c.spec.interior_point(&mut rng)).collect();
+                sampler.positions = tensor2::<B>(&flat, n, dim);
+                prev_rejected = vec![false; n];
+                cov.class("positions-reassigned-between-steps");
+            }
+            if c.reassign & 4 != 0 {
+                n_leap = (n_leap + s) % 9;
+                sampler.n_leapfrog = n_leap;
+            }
+        }
         let mom: Vec<f64> = (0..n * dim).map(|_| c.pscale.0 * rng.normal()).collect();
         let us: Vec<f64> = (0..n).map(|_| draw_u(&mut rng)).collect();
         if c.inject {
@@ -372,7 +400,7 @@ where
         let after = to_vec(&sampler.positions);
         let ctx = format!("step {s}{}", if prev_rejected.iter().any(|b| *b) { " (after a rejection)" } else { "" });
         for row in 0..n {
-            let v = check_row(&c.spec, rec, row, eps_used, c.n_leapfrog, eps_b, &after[row * dim..(row + 1) * dim], cov, &ctx).map_err(|f| {
+            let v = check_row(&c.spec, rec, row, eps_used, n_leap, eps_b, &after[row * dim..(row + 1) * dim], cov, &ctx).map_err(|f| {
                 if prev_rejected[row] && f.sig.starts_with("hmc-trajectory") {
                     Fail::new("hmc-trajectory after-rejection", f.msg)
                 } else {
@@ -381,7 +409,7 @@ where
             })?;
             let x = &rec.positions_before[row * dim..(row + 1) * dim];
             let stayed = after[row * dim..(row + 1) * dim].iter().zip(x).all(|(a, b)| a.to_bits() == b.to_bits());
-            if v.compared_traj && v.decided.is_some() && c.n_leapfrog >= 1 {
+            if v.compared_traj && v.decided.is_some() && n_leap >= 1 {
                 nontrivial = true;
                 if prev_rejected[row] {
                     cov.class("row-checked-after-its-rejection");
@@ -392,7 +420,7 @@ where
                 Some(false) => n_rej += 1,
                 None => {}
             }
-            prev_rejected[row] = stayed && c.n_leapfrog >= 1;
+            prev_rejected[row] = stayed && n_leap >= 1;
         }
         cov.evals(n as u64);
     }
